@@ -307,4 +307,61 @@ theorem testName_render (e : Aspects) (n : String) (a : Aspects) (v : Variant) :
     values_expect_name]
   rfl
 
+/-! ### the body probe only matters for GET -/
+
+theorem withBody_self (r : Req) (p : Probe) (h : p.isEOF = r.bodyEmpty) : withBody r p = r := by
+  cases r; simp only [withBody] at *; simp [h]
+
+theorem afterTimeout_withBody (r : Req) (p : Probe) :
+    afterTimeout (withBody r p) = withBody (afterTimeout r) p := by
+  have hp : protocolBlock (withBody r p) = protocolBlock r := rfl
+  unfold afterTimeout
+  rw [hp]
+  cases (protocolBlock r).2.2 <;> rfl
+
+theorem afterTimeout_method (r : Req) : (afterTimeout r).method = r.method := by
+  unfold afterTimeout
+  cases (protocolBlock r).2.2 <;> rfl
+
+theorem codecCore_not_get (ev ct : List String) (m : String) (b1 b2 : Bool) (enc : List String)
+    (hm : (m == "GET") = false) : codecCore ev ct m b1 enc = codecCore ev ct m b2 enc := by
+  unfold codecCore
+  simp only [hm, Bool.false_eq_true, if_false]
+
+/-- for any method but GET the checks do not look at the body -/
+theorem checks_withBody_not_get (count : Nat) (r : Req) (p : Probe) (hm : (r.method == "GET") = false) :
+    checks count (withBody r p) = checks count r := by
+  have ht : testName (withBody r p) = testName r := rfl
+  have hp : protocolBlock (withBody r p) = protocolBlock r := rfl
+  have hv : fbVersion (withBody r p) = fbVersion r := rfl
+  have hm' : ((afterTimeout r).method == "GET") = false := by rw [afterTimeout_method]; exact hm
+  have hc : fbCodec (withBody (afterTimeout r) p) = fbCodec (afterTimeout r) := by
+    unfold fbCodec
+    exact codecCore_not_get _ _ _ _ _ _ hm'
+  have hz : fbCompression (withBody (afterTimeout r) p) = fbCompression (afterTimeout r) := rfl
+  have hl : fbTLS (withBody (afterTimeout r) p) = fbTLS (afterTimeout r) := rfl
+  have hmm : fbMethod (withBody (afterTimeout r) p) = fbMethod (afterTimeout r) := rfl
+  have htr : fbTrailers (withBody (afterTimeout r) p) = fbTrailers (afterTimeout r) := rfl
+  have hh : (withBody (afterTimeout r) p).headers = (afterTimeout r).headers := rfl
+  unfold checks
+  rw [ht, afterTimeout_withBody, hp, hv]
+  simp only [hc, hz, hl, hmm, htr, hh]
+
+theorem render_method_get (e : Aspects) (n : String) (a : Aspects) (v : Variant) :
+    ((render e n a v).method == "GET") = (a.method == .get) := by
+  cases hm : a.method <;> simp [render, Method.str, hm] <;> decide
+
+/-- the request of a conformant client with a body as a conformant client sends it -/
+theorem checks_render_withBody (count : Nat) (e : Aspects) (n : String) (a : Aspects) (v : Variant) (p : Probe)
+    (hp : conformantProbe a p = true) :
+    checks count (withBody (render e n a v) p) = checks count (render e n a v) := by
+  by_cases hg : a.method = .get
+  · have : p = .eof := by simpa [conformantProbe, hg] using hp
+    subst this
+    rw [withBody_self]
+    simp [render, hg, Probe.isEOF]
+  · apply checks_withBody_not_get
+    rw [render_method_get]
+    simpa using hg
+
 end ConfModel.ServerChecks
